@@ -605,7 +605,9 @@ theorem getTable_found {a : Nat} {rels : List RelID} {w w' : World} {t : Nat}
         · cases h
         · split at h
           · cases h
-          · exact getTable_go_found _ _ _ _ _ h
+          · split at h
+            · cases h
+            · exact getTable_go_found _ _ _ _ _ h
 
 theorem getTable_go_total (rels : List RelID) (w : World) : ∀ (ts : List Nat),
     (∀ (t : Nat), t ∈ ts → (w.tbl t).matchesExact rels = .yes ∨ (w.tbl t).matchesExact rels = .no) →
